@@ -14,7 +14,21 @@ use highway::NeonHash;
 #[cfg(all(target_family = "wasm", target_feature = "simd128"))]
 use highway::WasmHash;
 
+#[path = "intrin.rs"]
+pub mod intrin;
+
 pub const NH: usize = 32;
+
+fn parse_u128_hex(s: &[u8]) -> Option<u128> {
+    if s.is_empty() || s.len() > 32 {
+        return None;
+    }
+    let mut v: u128 = 0;
+    for &c in s {
+        v = (v << 4) | hexval(c)? as u128;
+    }
+    Some(v)
+}
 
 #[derive(Clone)]
 pub enum AnyHasher {
@@ -375,6 +389,37 @@ impl Machine {
             };
         }
         match (op, n) {
+            (b"intrin", _) if n >= 4 => {
+                #[cfg(target_arch = "x86_64")]
+                {
+                    if !self.cpu.avx2 {
+                        out.s("none");
+                        return;
+                    }
+                    let Some(imm) = parse_dec(toks[2]) else { bad!() };
+                    let mut ops = [0u128; 6];
+                    let mut k = 0;
+                    for t in &toks[3..n] {
+                        let Some(v) = parse_u128_hex(t) else { bad!() };
+                        ops[k] = v;
+                        k += 1;
+                    }
+                    match unsafe { intrin::x86::run(toks[1], imm, &ops[..k]) } {
+                        Some((lo, hi)) => {
+                            out.u64_hex((lo >> 64) as u64);
+                            out.u64_hex(lo as u64);
+                            if let Some(h) = hi {
+                                out.s(" ");
+                                out.u64_hex((h >> 64) as u64);
+                                out.u64_hex(h as u64);
+                            }
+                        }
+                        None => out.s("bad-op"),
+                    }
+                }
+                #[cfg(not(target_arch = "x86_64"))]
+                out.s("none");
+            }
             (b"reset", 1) => {
                 for h in self.hs.iter_mut() {
                     *h = None;
